@@ -647,11 +647,10 @@ pub fn analyse(case: &IterCase, res: &RunResult) -> CaseReport {
                 if end > horizon {
                     continue;
                 }
-                // watched by then?
-                match add_ret.get(&d.sig) {
-                    Some(ar) if *ar < d.start => {}
-                    _ => continue,
-                }
+                // The instance's own action ran for this delivery (it stored the signal and sent a
+                // wake-up byte), so the instance has accepted it - also when that happened while
+                // the add_signal that registered the action was still returning.
+                let _ = &add_ret;
                 let reported = yields.iter().any(|(pos, sig, _, load, _)| *sig == d.sig && *load > stored && *pos < q);
                 if !reported {
                     let late = yields.iter().any(|(pos, sig, _, _, _)| *sig == d.sig && *pos > q);
